@@ -160,10 +160,10 @@ Proof. unfold rows_nulls_ok. rewrite forallb_forall. intros H r e Ir Ie. special
 
 Lemma nulls_ok3_from t t' es r e :
   cols t = cols t' -> Permutation (rows t) (rows t') ->
-  rows_nulls_ok is_cmp_op t' es = true -> rows_nulls_ok is_logic_op t' es = true -> rows_nulls_ok is_minmax_op t' es = true ->
+  rows_nulls_ok is_cmp_op t' es = true -> rows_nulls_ok is_logic_op t' es = true ->
   In r (rows t) -> In e es -> nulls_ok3 (cols t) r e.
 Proof.
-  intros C P A B D Ir Ie. assert (In r (rows t')) as Ir' by (eapply Permutation_in; eassumption).
+  intros C P A B Ir Ie. assert (In r (rows t')) as Ir' by (eapply Permutation_in; eassumption).
   unfold nulls_ok3. rewrite C. repeat split; eapply rows_nulls_ok_spec; eassumption.
 Qed.
 
@@ -235,8 +235,7 @@ Proof.
           + apply NR. apply in_or_app. right. apply in_or_app. left. exact I.
         - intros r e0 Ir Ie. apply (nulls_ok3_from ts ts' (map snd ops) r e0 Cs Ps); try assumption.
           + exact (Gp CCmpNull).
-          + exact (Gp CLogicNull).
-          + exact (Gp CMinMaxNull). }
+          + exact (Gp CLogicNull). }
       destruct (extend_perm fl_pandas ops ts ts' Cs Ps) as [CC PP].
       split; [split; [cbn [sem_extend cols]; apply NoDup_ext_cols; exact NDs|apply width_extend; exact Ws]|]. auto.
   - (* project *)
@@ -275,8 +274,8 @@ Proof.
     assert (t = sem_select_rows fl_pandas x ts) as ->.
     { apply (select_rows_step_filter (column_names (OSelectRows s x)) x ts t V); [|exact H]. intros r Ir.
       assert (In r (rows ts')) as Ir' by (eapply Permutation_in; eassumption).
-      pose proof (Gp CCmpNull) as G1. pose proof (Gp CLogicNull) as G2. pose proof (Gp CMinMaxNull) as G3.
-      cbn [step_guard] in G1, G2, G3. unfold filter_rows_ok in G1, G2, G3. rewrite forallb_forall in G1, G2, G3.
+      pose proof (Gp CCmpNull) as G1. pose proof (Gp CLogicNull) as G2.
+      cbn [step_guard] in G1, G2. unfold filter_rows_ok in G1, G2. rewrite forallb_forall in G1, G2.
       unfold filter_ok3. rewrite Cs. auto. }
     split; [split; [exact NDs|apply width_select_rows; exact Ws]|]. split; [exact Cs|]. split; [apply select_rows_perm; assumption|exact Us].
   - (* select_columns *)
